@@ -423,6 +423,23 @@ def gen_c11(rng, thorough=False):
                 steps.append(reply(good_reply(rng, st), unit=1))
             prev = st
         scs.append(scenario(len(scs), steps, tag="c11-wrap-near", txid0=txid0))
+    # a late reply that straddles the deadline: its head arrives in time, the request times out, the next request is
+    # sent, and the tail -- register values the peer chooses freely, here spelling a complete frame with the next
+    # request's id -- arrives afterwards.  The tail belongs to the stale frame and must be discarded with it.
+    for txid0 in (0, 7, 65535):
+        for head in (7, 8, 9, 12):
+            for tail_when in ("await-next", "idle"):
+                nxt = (txid0 + 1) % 65536
+                inner = [nxt >> 8, nxt & 255, 0, 0, 0, 5, 1, 3, 2, 0xBE, 0xEF, 0]
+                late = [txid0 >> 8, txid0 & 255, 0, 0, 0, 15, 1, 3, 12] + inner
+                st1 = submit(1, 3, 1, 0, 6, (), 10)
+                st2 = submit(2, 3, 1, 50, 1, (), 100)
+                steps = [cmd("enable"), st1, peer(late[:head]), tick(10)]
+                if tail_when == "await-next":
+                    steps += [st2, peer(late[head:]), reply([3, 2, 0x12, 0x34], unit=1)]
+                else:
+                    steps += [peer(late[head:]), st2, reply([3, 2, 0x12, 0x34], unit=1)]
+                scs.append(scenario(len(scs), steps, tag=f"c11-late-reply-straddles-deadline@{head}-{tail_when}", txid0=txid0))
     # invalid requests taken from the queue still advance the id
     steps = [cmd("enable")]
     r = 0
@@ -704,6 +721,19 @@ def gen_c07_client(rng, n):
     return scs
 
 
+def at_levels(scs, levels):
+    """the same scripts with the channel created at other decode levels (nothing observable may change)"""
+    out = []
+    for sc in scs:
+        for lv in levels:
+            c = dict(sc)
+            c["id"] = len(out)
+            c["decode"] = list(lv)
+            c["tag"] = sc["tag"] + f"+dec{list(lv)}"
+            out.append(c)
+    return out
+
+
 def with_decode_variants(rng, scs, positions=2, all_levels=False):
     out = []
     levels = DECODES if all_levels else [[0, 0, 0], [3, 2, 2]]
@@ -869,6 +899,94 @@ def gen_c14(rng, thorough=False):
     return scs
 
 
+def to_serial(scs, tagp="serial-"):
+    """the same scripts for the RTU channel task: a `connector` result becomes the state of the port at the next
+    attempt to open it (opening is synchronous), replies are RTU frames, there is no consecutive-timeout limit"""
+    out = []
+    for sc in scs:
+        results = [s["res"] == "ok" for s in sc["steps"] if s["op"] == "connector"]
+        steps = []
+        k = 0
+        cur = results[0] if results else True
+        first = cur
+        for s in sc["steps"]:
+            if s["op"] == "connector":
+                k += 1
+                nxt = results[k] if k < len(results) else cur
+                if nxt != cur:
+                    steps.append({"op": "port", "ok": nxt})
+                    cur = nxt
+                continue
+            s = dict(s)
+            s.pop("race", None)
+            steps.append(s)
+        d = dict(sc)
+        d.update({"mode": "serial", "framing": "rtu", "max_timeouts": 0, "steps": steps, "port": first,
+                  "tag": tagp + sc.get("tag", "")})
+        out.append(d)
+    return out
+
+
+def gen_serial_c14(rng, thorough=False):
+    """the port is missing / present / unplugged in patterns; after every attempt the script waits delay-1 and then 1 ms,
+    with the state of the port for the next attempt put in place in between"""
+    scs = []
+    grid = [(1, 1), (1, 8), (10, 15), (100, 250), (100, 800), (1000, 60000), (3, 1000)]
+    patterns = ["FFFFFFFF", "FFFeFFF", "egeg", "FFgeF", "FFFFdFF", "FeFFeF", "eFeFFFeFF"]
+    for rmin, rmax in grid:
+        for pattern in patterns:
+            outcomes = [c for c in pattern if c != "d"]
+            steps = []
+            port = outcomes[0] != "F"
+            first = port
+            cur = rmin
+
+            def noise():
+                if rng.random() < 0.6:
+                    return [rng.choice([submit(900 + rng.randrange(90), 3, 1, 0, 1, (), 50), cmd("decode", level=[1, 1, 1]), cmd("enable")])
+                            for _ in range(rng.randint(1, 2))]
+                return []
+
+            def wait(d, nxt_ok):
+                nonlocal port
+                pre = []
+                if d > 2:
+                    pre = [tick(1)] + noise() + [tick(d - 2)]
+                elif d == 2:
+                    pre = noise() + [tick(1)]
+                else:
+                    pre = noise()
+                if nxt_ok != port:
+                    pre.append({"op": "port", "ok": nxt_ok})
+                    port = nxt_ok
+                return pre + [tick(1)]
+
+            steps.append(cmd("enable"))
+            k = 0
+            for c in pattern:
+                if c == "d":
+                    # disabled while waiting: the wait is abandoned; enabling again attempts at once
+                    continue
+                nxt_ok = (outcomes[k + 1] != "F") if k + 1 < len(outcomes) else port
+                k += 1
+                if c == "F":
+                    d = cur
+                    cur = min(2 * cur, rmax)
+                    steps += wait(d, nxt_ok)
+                else:
+                    cur = rmin
+                    st = rand_request(rng, k, timeout=5, unit=1)
+                    steps += [st, reply(good_reply(rng, st), unit=1)]
+                    steps.append({"op": "eof"} if c == "e" else peer([1, 99, 9, 9]))
+                    steps += wait(rmin, nxt_ok)
+            if "d" in pattern:
+                steps += [cmd("disable"), tick(rmax), cmd("enable"), tick(1)]
+            scs.append(scenario(len(scs), steps, mode="serial", framing="rtu", retry=(rmin, rmax), max_timeouts=0,
+                                tag=f"serial-c14-{rmin}-{rmax}-{pattern}"))
+            scs[-1]["port"] = first
+    return scs
+
+
 def gen_cut_frame_then_reconnect(rng, cuts=(1, 3, 6, 7, 8, 9, 10), tagp="cut"):
     """a reply is cut off by the end of the connection (inside the header, exactly after it, inside the body); the
     next connection must start clean: its timely replies are framed from their first byte"""
@@ -962,8 +1080,15 @@ def sim_scripts(workdir, mode, num, seed):
                 steps.append(conn(mv["res"]))
             elif o == "new_conn":
                 steps.append(cmd("new_conn"))
-        scs.append(scenario(len(scs), steps, mode=mode, queue=SIM_CONSTS["Cap"], max_timeouts=SIM_CONSTS["MaxTO"],
-                            retry=(SIM_CONSTS["RMin"], SIM_CONSTS["RMax"]), tag=f"tlc-simulated-{mode}"))
+            elif o == "peerbytes":
+                steps.append(peer(mv["bytes"]))
+            elif o == "port":
+                steps.append({"op": "port", "ok": bool(mv["ok"])})
+        scs.append(scenario(len(scs), steps, mode=mode, queue=SIM_CONSTS["Cap"], max_timeouts=0 if mode == "serial" else SIM_CONSTS["MaxTO"],
+                            retry=(SIM_CONSTS["RMin"], SIM_CONSTS["RMax"]), tag=f"tlc-simulated-{mode}",
+                            framing="rtu" if mode == "serial" else "tcp"))
+        if mode == "serial":
+            scs[-1]["port"] = True
     if not scs:
         raise vf.ToolError("TLC simulation printed no script:\n" + p.stdout[-2000:])
     return scs
